@@ -66,6 +66,7 @@ type hctx struct {
 	imgSeq       *int
 	contBudget   map[string]int // variant class -> images that may still be continued
 	failSnapOnce bool           // inject one snapshot failure at snap.written
+	midSnap      func()         // activity inside the failing snapshot: an acknowledged write and a colliding snapshot request
 	recovering   bool           // root is being opened (hooks = crash during recovery)
 	failed       bool
 	tornAll      bool
@@ -196,8 +197,37 @@ func runCase(caseID string, seed int64, idx int, base string) {
 		failSnapAt = 3 + g.Intn(8) // the next snapshot after this step fails once
 	}
 	var ops []sm.Op
+	var extra []sm.Point
 	for i := 0; i < cfg.Ops; i++ {
-		ops = append(ops, gen.Next())
+		op := gen.Next()
+		ops = append(ops, op)
+		if failSnapAt >= 0 && i >= failSnapAt && op.Kind == "snapshot" && extra == nil && idx%4 == 1 {
+			// the snapshot that will fail: a batch acknowledged while it is in
+			// flight, followed by a second snapshot request that collides with it
+			// (what a backup or the periodic cache compaction does)
+			extra = gen.Batch()
+			gen.T.ApplyWrite(extra)
+		}
+	}
+	if extra != nil {
+		c.midSnap = func() {
+			c.midSnap = nil
+			c.ops = append(c.ops, "  (inside the failing snapshot) "+sm.Op{Kind: "write", Batch: extra}.String())
+			c.pendW = extra
+			res := c.env.Write(extra)
+			c.pendW = nil
+			if res.Err != nil && !res.Partial {
+				r.Inconclusive(c.caseID + ": write inside the failing snapshot: " + res.Err.Error())
+				return
+			}
+			c.tr.ApplyWrite(extra)
+			r.Count("acknowledged_writes", 1)
+			r.Count("writes_acknowledged_inside_a_failing_snapshot", 1)
+			if err := c.env.Snapshot(); err != nil {
+				r.Count("colliding_snapshot_requests_rejected", 1)
+				c.ops = append(c.ops, "  (inside the failing snapshot) snapshot request: "+err.Error())
+			}
+		}
 	}
 	c.runOps(ops, failSnapAt)
 	if !c.failed {
@@ -375,6 +405,9 @@ func onHook(name string, args ...interface{}) error {
 		c.image(name, path)
 		if c.failSnapOnce {
 			c.failSnapOnce = false
+			if c.midSnap != nil {
+				c.midSnap()
+			}
 			return fmt.Errorf("injected snapshot failure")
 		}
 		return nil
